@@ -30,7 +30,12 @@ RULE = ("hdr cases: all presence combinations (payload size/hash x seq/backlink,
         "random wire order; each is signed with a pool key, encoded, parsed back to tokens, decoded 20 times. tok cases: valid token "
         "streams with one token-level mutation (drop/duplicate/retype a token, array count +-1, out-of-range integer, wrong-length "
         "byte string, extension version/variant, excess extension fields, duplicate previous, trailing tokens) decoded by the real "
-        "decoder and the model. non-trivial = hdr case with a non-unit extension or an optional field present, or any tok case")
+        "decoder and the model. Boundary cases: every integer field (payload_size, seq_num, version, timestamp, u64 extension) at the "
+        "CBOR head-width boundaries 0/1/23/24/255/256/65535/65536/2^32-1/2^32/2^63/2^64-1 (clamped to the field's type); `previous` "
+        "sets of 7,16,23,24,25,64,100,101,128,255,256,257,300,1000 hashes (thorough: up to 2000) built locally by the author (repo "
+        "hook Extensions::verif_causal, random insertion order) and also decoded from a peer's bytes in that wire order; set members "
+        "sharing their first 8/16/30/31 bytes; token streams with 24/101/256 previous hashes, also with a duplicate. "
+        "non-trivial = hdr case with a non-unit extension or an optional field present, or any tok case")
 NONTRIVIAL_FLOOR = 50
 
 U16, U32, U64 = 2 ** 16, 2 ** 32, 2 ** 64
@@ -202,7 +207,120 @@ def _tok_case(rng):
     return {"kind": "tok", "ek": ek, "toks": _mutate(rng, toks, ek)}
 
 
-def gen(tier, rng):
+# ---- large / boundary `previous` sets, CBOR head-width boundaries ---------------------------------
+# CBOR heads change width at 24, 256, 65536, 2^32 (array lengths as well as integers).  The theorem
+# C02_dec_enc holds for every size; these cases make the correspondence run probe the widths and the
+# sizes the small random sets never reach (a decoder-only limit on the number of `previous` hashes
+# is invisible below it).
+
+PREV_SIZES_QUICK = [7, 16, 23, 24, 25, 64, 100, 101, 128, 255, 256, 257, 300, 1000]
+PREV_SIZES_THOROUGH = PREV_SIZES_QUICK + [2, 3, 99, 100, 101, 102, 127, 129, 200, 254, 255, 256, 257, 258, 500, 512, 1000, 1023,
+                                          1024, 1025, 2000]
+INT_EDGES = [0, 1, 23, 24, 255, 256, 65535, 65536, 2 ** 32 - 1, 2 ** 32, 2 ** 63, 2 ** 64 - 1]
+
+
+def _family(rng, n, p):
+    """n distinct 32-byte hashes sharing their first p bytes (p <= 30): the two bytes after the common
+    prefix hold a distinct 16-bit value, the tail is one run.  In random (insertion / wire) order."""
+    a, b = rng.choice([0, 1, 7, 127, 128, 255]), rng.choice([0, 1, 9, 254, 255])
+    if rng.random() < 0.5:
+        vals = rng.sample(range(65536), n)
+    else:  # dense: neighbours differ in the last of the two bytes only (prefix p + 1 shared)
+        base = rng.randrange(65536 - n)
+        vals = [base + i for i in range(n)]
+        rng.shuffle(vals)
+    return [_norm([[p, a], [1, v >> 8], [1, v & 255], [30 - p, b]]) for v in vals]
+
+
+def _family31(rng, n):
+    """n <= 256 distinct hashes whose first 31 bytes are equal"""
+    a = rng.choice([0, 1, 7, 127, 128, 255])
+    return [_norm([[31, a], [1, v]]) for v in rng.sample(range(256), n)]
+
+
+def _big_prev(rng, n, p=None):
+    """a `previous` set of n hashes: one family, or several families with common prefixes of
+    different lengths mixed, in random order"""
+    if p is None:
+        p = rng.choice([0, 1, 8, 8, 16, 16, 30, 31, "mix"])
+    if p == 31 and n > 256:
+        p = 30
+    if p == 31:
+        return _family31(rng, n)
+    if p != "mix" or n < 4:
+        return _family(rng, n, 8 if p == "mix" else p)
+    out, seen = [], set()
+    parts = [n // 3, n // 3, n - 2 * (n // 3)]
+    for q, m in zip(rng.sample([0, 8, 16, 30], 3), parts):
+        for h in _family(rng, m, q):
+            if _expand(h) not in seen:
+                seen.add(_expand(h))
+                out.append(h)
+    while len(out) < n:
+        h = _hexb(rng, 32)
+        if _expand(h) not in seen:
+            seen.add(_expand(h))
+            out.append(h)
+    rng.shuffle(out)
+    return out
+
+
+def _causal_hdr(rng, prev, ps=None, sq=None, ts=None, version=1):
+    ps = rng.choice([0, 0, 23, 24, 255, 256, 65535, 65536, 2 ** 32 - 1]) if ps is None else ps
+    sq = rng.choice([0, 0, 23, 24, 255, 256, 65535, 65536, 2 ** 32 - 1]) if sq is None else sq
+    ts = rng.choice(INT_EDGES) if ts is None else ts
+    return {"kind": "hdr", "key": rng.randrange(8), "version": version, "psize": ps, "phash": _hexb(rng, 32) if ps else None,
+            "seq": sq, "backlink": _hexb(rng, 32) if sq else None,
+            "ext": {"kind": "causal", "log": _hexb(rng, 32), "ts": ts, "prev": prev}}
+
+
+def _boundary_cases(tier, rng):
+    """hdr cases at the CBOR head-width boundaries; returns (ordinary cases, expensive cases)"""
+    small, big = [], []
+    # every integer field at every width boundary it can hold (payload_size, seq_num: u32; version: u16;
+    # timestamp and the u64 extension: u64)
+    for v in INT_EDGES:
+        w32, w16 = min(v, U32 - 1), min(v, U16 - 1)
+        for kind in ("unit", "u64", "basic", "causal"):
+            h = _mk_hdr(rng, kind, (1, 1), (1, 1), 2 if kind == "causal" else None, w16)
+            h["psize"], h["seq"] = w32, w32
+            if w32 == 0:
+                h["phash"] = h["backlink"] = None
+            if kind == "u64":
+                h["ext"]["n"] = v
+            elif kind != "unit":
+                h["ext"]["ts"] = v
+            small.append(h)
+    # small sets whose members agree on a long prefix (first 8, 16, 30, 31 bytes)
+    for p in (8, 16, 30, 31):
+        for n in ((2, 3, 5) if tier == "quick" else (2, 2, 3, 3, 4, 5, 6, 8)):
+            small.append(_causal_hdr(rng, _big_prev(rng, n, p)))
+    # sizes around the array-length head widths and well beyond any small constant
+    sizes = PREV_SIZES_QUICK if tier == "quick" else PREV_SIZES_THOROUGH
+    for n in sizes:
+        c = _causal_hdr(rng, _big_prev(rng, n))
+        (big if n > 64 else small).append(c)
+    return small, big
+
+
+def _big_tok_cases(tier, rng):
+    """a remote peer's bytes with many `previous` hashes (unsorted wire order), unmutated and with
+    one duplicated element"""
+    out = []
+    for n in ((24, 101, 256) if tier == "quick" else (23, 24, 25, 100, 101, 255, 256, 257, 600)):
+        h = _causal_hdr(rng, _big_prev(rng, n))
+        toks = _enc(h, _hexb(rng, 64))
+        out.append({"kind": "tok", "ek": "node", "toks": toks})
+        if n <= 101:
+            d = copy.deepcopy(toks)
+            ss = [i for i, x in enumerate(d) if x[0] == "S"]
+            d.insert(ss[2] + 1, copy.deepcopy(d[ss[2] + 1 + rng.randrange(n)]))
+            d[ss[2]][1] += 1
+            out.append({"kind": "tok", "ek": "node", "toks": d})
+    return out
+
+
+def _gen_small(tier, rng):
     modes = [(0, 0), (1, 1), (0, 1), (1, 0)]
     kinds = [("unit", None), ("u64", None), ("basic", None), ("causal", 0), ("causal", 1), ("causal", 2), ("causal", 3)]
     for k, n in kinds:
@@ -219,6 +337,20 @@ def gen(tier, rng):
         yield _mk_hdr(rng, kind, pm, sm, None, version)
     for i in range(nt):
         yield _tok_case(rng)
+
+
+def gen(tier, rng):
+    small, big = _boundary_cases(tier, rng)
+    big += _big_tok_cases(tier, rng)
+    rest = small + list(_gen_small(tier, rng))
+    # the expensive cases are spread evenly, so that they do not end up in one coqtop shard
+    step = max(1, len(rest) // (len(big) + 1))
+    for i, c in enumerate(rest):
+        yield c
+        if (i + 1) % step == 0 and big:
+            yield big.pop(0)
+    for c in big:
+        yield c
 
 
 # ---- rendering -----------------------------------------------------------------------------------
@@ -368,7 +500,16 @@ def shrink(case):
     if case["kind"] == "hdr":
         e = case["ext"]
         if e["kind"] == "causal":
-            for i in range(len(e["prev"])):
+            n = len(e["prev"])
+            # large sets: drop blocks first (halves, quarters, ...), single elements last
+            k = n // 2
+            while k >= 2 and k >= n // (8 if n > 128 else n):
+                for a in range(0, n, k):
+                    c = copy.deepcopy(case)
+                    del c["ext"]["prev"][a:a + k]
+                    yield c
+                k //= 2
+            for i in (range(n) if n <= 48 else list(range(24)) + list(range(n - 24, n))):
                 c = copy.deepcopy(case)
                 del c["ext"]["prev"][i]
                 yield c
@@ -390,7 +531,8 @@ def shrink(case):
 
 def distribution(cases, impl):
     d = {"hdr": 0, "tok": 0, "hdr_ext": {}, "causal_prev_ge2": 0, "hdr_invalid_combination": 0, "tok_accepted": 0, "tok_rejected": 0,
-         "hdr_roundtrip_ok": 0}
+         "hdr_roundtrip_ok": 0, "causal_prev_size": {"0-6": 0, "7-23": 0, "24-100": 0, "101-255": 0, "256-999": 0, "1000+": 0},
+         "causal_prev_max": 0, "tok_prev_array_max": 0}
     for i, c in enumerate(cases):
         r = impl.get(i, "")
         if c["kind"] == "hdr":
@@ -399,12 +541,21 @@ def distribution(cases, impl):
             d["hdr_ext"][k] = d["hdr_ext"].get(k, 0) + 1
             if k == "causal" and len(c["ext"]["prev"]) >= 2:
                 d["causal_prev_ge2"] += 1
+            if k == "causal":
+                n = len(c["ext"]["prev"])
+                b = ("0-6" if n <= 6 else "7-23" if n <= 23 else "24-100" if n <= 100 else "101-255" if n <= 255 else
+                     "256-999" if n <= 999 else "1000+")
+                d["causal_prev_size"][b] += 1
+                d["causal_prev_max"] = max(d["causal_prev_max"], n)
             if bool(c["phash"]) != (c["psize"] != 0) or bool(c["backlink"]) != (c["seq"] != 0):
                 d["hdr_invalid_combination"] += 1
             if "rt=1" in r:
                 d["hdr_roundtrip_ok"] += 1
         else:
             d["tok"] += 1
+            ss = [t[1] for t in c["toks"] if t[0] == "S"]
+            if len(ss) >= 3:
+                d["tok_prev_array_max"] = max(d["tok_prev_array_max"], ss[2])
             d["tok_accepted" if r.startswith("OK") else "tok_rejected"] += 1
     return d
 
